@@ -32,7 +32,9 @@ structure SymInfo where
   isFree : Bool
   deriving Repr, Inhabited
 
-inductive ScopeKind | module | function | class_
+/-- `other_`: symbol tables that are neither (annotation scopes, type aliases, type parameters);
+    `generate_nsp` skips them with their subtree -/
+inductive ScopeKind | module | function | class_ | other_
   deriving Repr, DecidableEq, Inhabited
 
 /-- one `symtable.SymbolTable` (input of the model, produced by CPython) -/
@@ -116,6 +118,7 @@ def findOwner (x : String) : Stack → Except Err (String × Bool)
   | [] => .error (.runtimeError s!"Unable to search the origin of nonlocal/free '{x}'")
   | (.class_, _, _) :: rest => findOwner x rest
   | (.module, _, _) :: _ => .error (.assertion "outer is not a function namespace")
+  | (.other_, _, _) :: rest => findOwner x rest
   | (.function, s, d) :: rest => do
       if ← ownsName s x then
         let isParam := match s.lookup x with | some i => i.isParameter | none => false
@@ -179,7 +182,8 @@ mutual
       List SymScope → Except Err (List Nsp × List Claim × List String × Supply)
     | [] => .ok ([], [], [], sup)
     | c :: cs =>
-      if c.isLambdaOrComp then do
+      if c.kind == .other_ then buildChildren stack sup cs
+      else if c.isLambdaOrComp then do
         let (kids, claims, globs, sup) ← buildChildren stack sup cs
         -- only class namespaces record these globals
         pure (kids, claims, c.compGlobals ++ globs, sup)
@@ -214,6 +218,7 @@ def dictLoad (dict name : String) : Expr := .subscript (.name dict) (Expr.str na
 /-- `get_assign` -/
 def Nsp.getAssign (n : Nsp) (name : String) (v : Expr) : Except Err Expr :=
   match n.kind with
+  | .other_ => .ok (.namedExpr name v)
   | .module => .ok (.namedExpr name v)
   | .function =>
     match n.sym.lookup name with
@@ -238,6 +243,7 @@ def Nsp.getAssign (n : Nsp) (name : String) (v : Expr) : Except Err Expr :=
     (`comp_stack`) -/
 def Nsp.getLoad (n : Nsp) (bound : List String) (name : String) : Except Err Expr :=
   match n.kind with
+  | .other_ => .ok (.name name)
   | .module => .ok (.name name)
   | .function =>
     if bound.contains name then .ok (.name name)
